@@ -10,7 +10,7 @@ from sdc11073 import multikey  # noqa: E402
 
 U_POOL = ('u0', 'u1', 'u2', 'u3')
 G_POOL = (None, 'ga', 'gb')
-L_POOL = ((), ('x',), ('y',), ('x', 'y'), None)
+L_POOL = ((), ('x',), ('x', 'x'), ('x', 'y'), None)      # ('x', 'x'): the same key named twice (schema-valid for pm:Source)
 
 
 class Obj:
@@ -44,7 +44,7 @@ def scan(objs):
         if o.g is not None:
             by_g.setdefault(o.g, []).append(o.name)
         if o.l is not None:
-            for k in o.l:
+            for k in dict.fromkeys(o.l):       # a scan finds the object once, however often it names the key
                 by_l.setdefault(k, []).append(o.name)
     return by_u, by_g, by_l
 
@@ -100,7 +100,22 @@ def apply_op(t, objs, op, i, j, a, v, orc, tag):
         if a == 0:
             nu = pick(v, U_POOL)
             if not u_free(t, nu, o):
-                return   # changing a unique key to one in use is outside the claim (precondition of update)
+                if o not in t.objects:
+                    return
+                # the new unique key is in use: the re-index must be REJECTED, the object must stay findable under its old key,
+                # and once the application has put the old value back everything is as before
+                old_u = o.u
+                o.u = nu
+                try:
+                    t.update_object(o)
+                    orc.fail(tag + ':dup-unique-key-accepted-by-update')
+                except KeyError:
+                    pass
+                o.u = old_u
+                orc.check(t.by_u.get_one(old_u, allow_none=True) is o, tag + ':object-lost-from-index-after-rejected-update')
+                t.update_object(o)
+                orc.check(_snapshot(t) == before, tag + ':rejected-update-changed-table')
+                return
             o.u = nu
         elif a == 1:
             o.g = pick(v, G_POOL)
